@@ -404,13 +404,12 @@ func (gs GenesisState) ValidateSlashStates(operators, avs map[string]struct{}) e
 			}
 			return nil
 		}
-		seenFieldValueFunc := func(slashFromUndelegation SlashFromUndelegation) (string, struct{}) {
-			key := assetstypes.GetJoinedStoreKey(slashFromUndelegation.StakerID, slashFromUndelegation.AssetID)
-			return string(key), struct{}{}
-		}
-		_, err = utils.CommonValidation(slash.Info.ExecutionInfo.SlashUndelegations, seenFieldValueFunc, SlashFromUndelegationVal)
-		if err != nil {
-			return errorsmod.Wrap(ErrInvalidGenesisData, err.Error())
+		// one slash can hit several pending undelegations of the same staker and asset (the record
+		// carries no undelegation key), so the entries are validated one by one, not for uniqueness
+		for i, slashFromUndelegation := range slash.Info.ExecutionInfo.SlashUndelegations {
+			if err := SlashFromUndelegationVal(i, slashFromUndelegation); err != nil {
+				return errorsmod.Wrap(ErrInvalidGenesisData, err.Error())
+			}
 		}
 		// validate the slashing record regarding assets pool
 		SlashFromAssetsPoolVal := func(_ int, slashFromAssetsPool SlashFromAssetsPool) error {
